@@ -266,19 +266,19 @@ def specKeyed (c : CE) : Bool :=
   | .ok S => Spec.keyed S
   | .error _ => true
 
-def mkCall (id strat : String) (c : CE) (a : ArgL) : Case :=
+def mkCallC (id strat : String) (c : CE) (a : ArgL) : Case :=
   { id := id, cls := classOf c, kind := "call", stratum := strat,
     model := obsC (implCall c a.arg),
     spec := obsC (specCall c a.arg),
     payload := [c.src, a.src] }
 
-def mkPlainCall (id strat : String) (c : CE) (a : ArgL) : Case :=
+def mkPlainCallC (id strat : String) (c : CE) (a : ArgL) : Case :=
   { id := id, cls := classOf c, kind := "eval", stratum := strat,
     model := obsE (implCall c a.arg),
     spec := obsE (specCall c a.arg),
     payload := [s!"{c.src}({a.src})"] }
 
-def mkSafe (id strat : String) (c : CE) (a : ArgL) : Case :=
+def mkSafeC (id strat : String) (c : CE) (a : ArgL) : Case :=
   let m : Res V := match c.impl with
     | .ok r => (Impl.safeCall r a.arg fbV).2
     | .error _ => .error .other
@@ -291,7 +291,7 @@ def mkSafe (id strat : String) (c : CE) (a : ArgL) : Case :=
 
 /-- `c(<expr>)?:d` where the argument expression itself fails: with a missing attribute the fallback
 is taken (known finding), any other failure is an error as specified -/
-def mkSafeX (id strat : String) (c : CE) (x : Spec.ArgX) : Case :=
+def mkSafeXC (id strat : String) (c : CE) (x : Spec.ArgX) : Case :=
   let argSrc := match x with
     | .missingAttr => "(a: 1).b"
     | .otherErr => "{1: 2}(7)"
@@ -307,7 +307,7 @@ def mkSafeX (id strat : String) (c : CE) (x : Spec.ArgX) : Case :=
     model := obsE m, spec := obsE s, payload := [s!"{c.src}({argSrc})?:{fbSrc}"] }
 
 /-- `c(i)?(j)?:d` / `c(i)(j)?:d`: two call tails, the first one safe or not (SafeTailExpr's loop) -/
-def mkChain (id strat : String) (c : CE) (safe1 : Bool) (i j : ArgL) : Case :=
+def mkChainC (id strat : String) (c : CE) (safe1 : Bool) (i j : ArgL) : Case :=
   let step2 (v : V) (call2 : V → Res V) : Res V :=
     match v with
     | .set _ => (match call2 v with
@@ -330,10 +330,56 @@ def mkChain (id strat : String) (c : CE) (safe1 : Bool) (i j : ArgL) : Case :=
     model := obsE m, spec := obsE s,
     payload := [if safe1 then s!"{c.src}({i.src})?({j.src})?:{fbSrc}" else s!"{c.src}({i.src})({j.src})?:{fbSrc}"] }
 
-def mkValue (id strat : String) (c : CE) : Case :=
+def mkValueC (id strat : String) (c : CE) : Case :=
   { id := id, cls := classOf c, kind := "eval", stratum := strat,
     model := obsE (match c.impl with | .ok r => .ok r.den | .error e => .error e),
     spec := obsE c.spec, payload := [c.src] }
+
+/-! ### value-level source text and the cached-counter observables -/
+mutual
+def vSrc : V → String
+  | .num n => Lit.numSrc n
+  | .tup as => "(" ++ ", ".intercalate (vSrcAttrs as) ++ ")"
+  | .set xs => "{" ++ ", ".intercalate (vSrcList xs) ++ "}"
+def vSrcAttrs : List (String × V) → List String
+  | [] => []
+  | (n, v) :: r => (Lit.nameSrc n ++ ": " ++ vSrc v) :: vSrcAttrs r
+def vSrcList : List V → List String
+  | [] => []
+  | v :: r => vSrc v :: vSrcList r
+end
+
+def farX : CE := .offset (.lit (.num 100)) (.str 0 [120])
+
+/-- canon of the result alone is blind to stale cached fields (String.holes, Array.count): also observe
+`count`, equality with the literal spelling of the specified result (both orders) and a follow-up
+`++` whose shift is the count -/
+def mkObs (id strat : String) (c : CE) : List Case :=
+  match c.spec, c.impl with
+  | .ok R, .ok r =>
+    let lit := vSrc R
+    let fm : Res V := match farX.impl with
+      | .ok x => (match Impl.concat r x with | .ok y => .ok y.den | .error e => .error e)
+      | .error e => .error e
+    let fs : Res V := match farX.spec with
+      | .ok X => Spec.concat R X
+      | .error e => .error e
+    let pack (n : Nat) (f : Res V) : String :=
+      match f with
+      | .ok F => (V.mkTup [("n", .num (Int.ofNat n)), ("e", V.tt), ("g", V.tt), ("f", F)]).canon
+      | .error _ => "error"
+    [{ id := id ++ "o", cls := classOf c, kind := "eval", stratum := "counters/" ++ strat,
+       model := pack (Impl.count r) fm, spec := pack (Spec.card R) fs,
+       payload := [s!"let r = {c.src}; (n: r count, e: r = {lit}, g: {lit} = r, f: r ++ {farX.src})"] }]
+  | _, _ => []
+
+def mkCall (id strat : String) (c : CE) (a : ArgL) : Case × Option CE := (mkCallC id strat c a, some c)
+def mkPlainCall (id strat : String) (c : CE) (a : ArgL) : Case × Option CE := (mkPlainCallC id strat c a, some c)
+def mkSafe (id strat : String) (c : CE) (a : ArgL) : Case × Option CE := (mkSafeC id strat c a, some c)
+def mkSafeX (id strat : String) (c : CE) (x : Spec.ArgX) : Case × Option CE := (mkSafeXC id strat c x, none)
+def mkChain (id strat : String) (c : CE) (safe1 : Bool) (i j : ArgL) : Case × Option CE :=
+  (mkChainC id strat c safe1 i j, none)
+def mkValue (id strat : String) (c : CE) : Case × Option CE := (mkValueC id strat c, some c)
 
 /-! ## generators -/
 def offs : List Int := [0, 0, 0, -2, 3]
@@ -566,7 +612,7 @@ def genOffsetArg : Gen ArgL := do
   else if r == 1 then pure (.lit (.str 0 [97]))
   else do pure (.lit (.num (← pick [-2, 3, 1, 0, -1, 5])))
 
-def genCase (idx : Nat) : Gen Case := do
+def genCase (idx : Nat) : Gen (Case × Option CE) := do
   let id := s!"C05-{idx}"
   let kind ← rand 20
   if kind < 6 then do
@@ -616,6 +662,12 @@ def genCase (idx : Nat) : Gen Case := do
     let ra ← rand 8
     let (a, ha) ← if ra == 0 then genJoinRel
       else if ra == 1 then do pure ((CE.union (← genDictLit) (← genDictLit)), "dict-union")   -- Dict.Count of multi-valued keys
+      else if ra == 2 || ra == 3 then do
+        -- an offset (maybe nested) over an operand with holes: the count must survive the offset
+        let (h, how) ← genHoley ka
+        let e := CE.offset (.lit (.num (← pick [-1, 1, 3, -2]))) h
+        let e ← if (← chance 1 3) then do pure (CE.offset (.lit (.num (← pick [-1, 2]))) e) else pure e
+        pure (e, s!"offset-{how}")
       else genSeq ka
     let r ← rand 6
     let (b, hb) ← if r == 0 then do pure ((← genDictLit), "dict") else if r == 1 then genJoinRel else genSeq kb
@@ -699,17 +751,17 @@ def genRepIndep (idx : Nat) : Gen (List Case) := do
   let (twin, how) ← literalTwin c
   let (a, ak) ← genArgFor c
   let r ← rand 4
-  let both (f : String → String → CE → Case) : List Case :=
+  let both (f : String → String → CE → Case × Option CE) : List (Case × Option CE) :=
     [f (id ++ "r") s!"repindep/{rep}/{ak}" c, f (id ++ "t") s!"repindep/{how}/{ak}" twin]
-  let cases : List Case :=
+  let cases : List (Case × Option CE) :=
     if r == 0 then both (fun i st x => mkSafe i st x a)
     else if r == 1 then
       both (fun i st x => mkValue i (st ++ "/seqarrow") (.arrow true .keyOnly x))
     else both (fun i st x => mkCall i st x a)
-  pure (cases ++ mkShape (id ++ "s") c ++ (if (← chance 1 3) then mkShape (id ++ "u") twin else []))
+  pure (cases.map (·.1) ++ mkShape (id ++ "s") c ++ (if (← chance 1 3) then mkShape (id ++ "u") twin else []))
 
 /-- witnesses of the repaired defects and of the known findings; always run first -/
-def corpus : List Case :=
+def corpusP : List (Case × Option CE) :=
   let ab := CE.str 0 [97, 98]
   let holey := CE.concat ab (.offset (.lit (.num 3)) (.str 0 [100]))       -- 'ab' ++ (3\'d')
   [ mkCall "C05-corpus-0" "corpus/hole-call" holey (.lit (.num 2)),
@@ -739,6 +791,14 @@ def corpus : List Case :=
     mkCall "C05-corpus-17" "corpus/rel-name-before-at" (.relLit true "$a" [(.num 1, .num 30)]) (.lit (.num 1)),
     mkSafe "C05-corpus-18" "corpus/rel-at-last-safe"
       (.compose false "$a" [(.num 1, .num 2)] [(.num 2, .num 30)]) (.lit (.num 30)),
+    -- an offset over a string / array with a middle hole keeps count, equality and the next `++` right
+    mkValue "C05-corpus-24" "corpus/offset-holey-str" (.offset (.lit (.num 1)) (.whereNe (.str 0 [97, 98, 99, 100]) 1)),
+    mkValue "C05-corpus-25" "corpus/offset-holey-concat"
+      (.concat (.offset (.lit (.num (-1))) (.whereNe (.str 0 [97, 98, 99, 100]) 1)) (.str 0 [120])),
+    mkValue "C05-corpus-26" "corpus/offset-holey-arr"
+      (.offset (.lit (.num 2)) (.without (.arr 0 [some (.num 1), some (.num 2), some (.num 3)]) (.num 1) "@item" (.num 2))),
+    mkValue "C05-corpus-27" "corpus/offset-nested-holey"
+      (.offset (.lit (.num 2)) (.offset (.lit (.num (-3))) (.whereNe (.whereNe (.str 0 [97, 98, 99, 100, 101]) 1) 3))),
     mkSafeX "C05-corpus-19" "corpus/safecall-arg-missing-attr" (.str 0 [97, 98, 99]) .missingAttr,
     mkSafeX "C05-corpus-20" "corpus/safecall-arg-fails" (.str 0 [97, 98, 99]) .otherErr,
     mkCall "C05-corpus-21" "corpus/nonkeyed-true" .tt (.lit (.num 1)),
@@ -748,11 +808,20 @@ def corpus : List Case :=
     mkValue "C05-corpus-13" "corpus/dup-member-count"
       (.concat (.concat ab (.offset (.lit (.num (-1))) (.str 0 [98]))) (.str 0 [120])) ]
 
+def corpus : List Case := corpusP.flatMap (fun p =>
+  p.1 :: (match p.2 with | some c => mkObs p.1.id p.1.stratum c | none => []))
+
 def gen (seed n : Nat) (_thorough : Bool) : List Case := Id.run do
   let mut out := corpus.reverse
   for i in [0:n] do
-    let (c, _) := (genCase i).run (seedOf seed (500000 + i))
+    let ((c, ce), _) := (genCase i).run (seedOf seed (500000 + i))
     out := c :: out
+    -- value-rooted programs always, called collections every third time
+    match ce with
+    | some e =>
+      if c.payload.length == 1 && c.kind == "eval" && c.payload.head? == some e.src || i % 3 == 0 then
+        out := (mkObs c.id c.stratum e).reverse ++ out
+    | none => pure ()
     if i % 6 == 0 then
       let (cs, _) := (genRepIndep i).run (seedOf seed (900000 + i))
       out := cs.reverse ++ out
